@@ -859,11 +859,16 @@ func (f *Frame) contractCall(st *State, e *ast.CallExpr, ct *Contract, recv *Ter
 	}
 	pre := bindSt.clone()
 	// effects
-	mods := cf.resolveModifies(bindSt, ct)
+	pureRes := f.pureRes
+	f.pureRes = nil
+	var mods []modItem
+	if pureRes == nil {
+		mods = cf.resolveModifies(bindSt, ct)
+	}
 	eff := map[string]bool{}
 	// a trusted contract's frame is its modifies clause; a trusted contract WITHOUT one trusts only the ensures
 	// clauses: whatever the body may write is unknown afterwards, exactly as for a verified contract
-	if (!ct.Trusted || !ct.HasMod) && fi.Decl.Body != nil {
+	if pureRes == nil && (!ct.Trusted || !ct.HasMod) && fi.Decl.Body != nil {
 		unknown := false
 		for k := range f.calleeEffects(fi) {
 			if !strings.HasPrefix(k, "?") {
@@ -991,6 +996,11 @@ func (f *Frame) contractCall(st *State, e *ast.CallExpr, ct *Contract, recv *Ter
 	for i := 0; i < sig.Results().Len(); i++ {
 		t := sig.Results().At(i).Type()
 		v := c.fresh("res!"+ct.Name, c.sortOf(t))
+		if pureRes != nil && i < len(pureRes) {
+			// a function declared pure: its results are the uninterpreted applications, the ensures clauses are
+			// facts about those applications
+			v = pureRes[i]
+		}
 		f.assumeWellFormed(post, v, t)
 		res = append(res, v)
 		if i < len(ct.resObjs) {
